@@ -45,6 +45,10 @@ class QuoteBook(object):
         b, a = self.bid_ask(asset)
         if self._ints and asset in self.q and (int(b) + int(a)) % 2 == 0:
             return self._np.int64((int(b) + int(a)) // 2)
+        f = getattr(self, "mid_frac", 0.5)
+        if f != 0.5 and asset in self.q and not self._ints:
+            # a handler whose "mid" is its own figure (last trade, size-weighted ...) somewhere inside the quote
+            return b + f * (a - b)
         return (b + a) / 2.0
 
     # -- data handler interface -------------------------------------------
